@@ -80,6 +80,21 @@ func c13CheckStream(a vh.Args, o *vh.Oracle, r *vh.Result, c *c13Case, id int) e
 	switch c.Source {
 	case "addroot", "rootless":
 		tb, emitted, err = c13BuildTarOpt(nodes, false, true)
+	case "addroot-roots":
+		// members of a directory with additional root members ("./", ".", "./.") at the places c.Roots names
+		at := map[int][]string{}
+		for _, part := range strings.Split(c.Roots, ";") {
+			kv := strings.SplitN(part, ":", 2)
+			if len(kv) != 2 {
+				continue
+			}
+			var k int
+			fmt.Sscanf(kv[0], "%d", &k)
+			at[k] = append(at[k], strings.Split(kv[1], ",")...)
+		}
+		c13TarExtraRoots = func(k int) []string { return at[k] }
+		tb, emitted, err = c13BuildTarOpt(nodes, false, true)
+		c13TarExtraRoots = nil
 	case "addroot-dot":
 		tb, emitted, err = c13BuildTarOpt(nodes, false, false)
 	case "ungrouped":
@@ -153,6 +168,10 @@ func c13CheckStream(a vh.Args, o *vh.Oracle, r *vh.Result, c *c13Case, id int) e
 	}
 	rc, stderr := c13RunCLI(append(args, catar, tf)...)
 	what := fmt.Sprintf("tar stream %q (%d members, first a %s), AddRoot=%v", c.Source, len(nodes)-1, first, c.AddRoot)
+	if c.Roots != "" {
+		what += fmt.Sprintf(", root members at %s", c.Roots)
+		r.Dist("stream-root-members:" + c.Roots)
+	}
 
 	if c.Source == "empty" {
 		// nothing to archive: success would have to come with a well-formed archive of ... nothing
@@ -273,6 +292,13 @@ func c13RunStreams(a vh.Args, o *vh.Oracle, r *vh.Result, rng *vh.Rand, thorough
 			if err := run(&c13Case{Source: "addroot", AddRoot: true, Nodes: nodes}); err != nil {
 				return err
 			}
+		}
+	}
+	// the stream's own root members, anywhere and any number of them: all dropped under AddRoot
+	for _, roots := range []string{"0:./,./", "0:./,.,./.", "0:.,./", "2:./", "1:./,./", "-1:./", "-1:.,./", "0:./;2:.;-1:./."} {
+		nodes := c13FrontChild(c13SmallTree(rng.Fork()), rng.Bool())
+		if err := run(&c13Case{Source: "addroot-roots", AddRoot: true, Nodes: nodes, Roots: roots}); err != nil {
+			return err
 		}
 	}
 	if err := run(&c13Case{Source: "empty-addroot", AddRoot: true}); err != nil {
